@@ -1,8 +1,20 @@
 import GraafVerif.Driver.Common
+import GraafVerif.Driver.ReprDesc
 /-! Driver handlers for property C01 (ops the harness module `ops/c01.rs` emits). -/
 namespace GraafVerif.Driver.H01
 open GraafVerif GraafVerif.Driver
 
-def handlers : List (String × Handler) := []
+/-- `repr_obs <desc>`: build through the public API, observe order / vertices / arcs. -/
+def hObs : Handler := fun _ args obs =>
+  match args with
+  | [d] => do
+    let d ← GDesc.parse d
+    let model := match obsDesc d with
+      | some v => [v]
+      | none => [V.a "panic"]
+    pure (classify obs model none (nt := d.arcs.length ≥ 2) [d.repr, sizeTag d.order])
+  | _ => none
+
+def handlers : List (String × Handler) := [("repr_obs", hObs)]
 
 end GraafVerif.Driver.H01
